@@ -31,7 +31,20 @@ TField == /\ IsEvent("Field")
                [] OTHER -> FALSE
 \* C11: decoding stops at the first NUL
 TFieldDec == /\ IsEvent("FieldDec") /\ Matches(CpDecode(FirstNul(E.field)), E.text)
-TNext == TCpEnc \/ TCpDec \/ TE2E \/ TEsc \/ TUnesc \/ TStrip \/ TField \/ TFieldDec
+\* IS_MSO: the whole message is one LFS string (a code page selected in the name stays in force in the text); the decoded
+\* text start is the UTF-8 length of the decoded name; re-encoding the decoded packet gives back the frame
+Utf8Len(c) == IF c < 128 THEN 1 ELSE IF c < 2048 THEN 2 ELSE IF c < 65536 THEN 3 ELSE 4
+RECURSIVE Utf8Total(_)
+Utf8Total(s) == IF s = <<>> THEN 0 ELSE Utf8Len(Head(s)) + Utf8Total(Tail(s))
+TMsoDec == /\ IsEvent("MsoDec")
+           /\ Matches(CpDecode(E.enc), E.whole)                 \* the frame really carries name ++ text
+           /\ E.res = "ok" /\ E.msg = E.whole
+           /\ E.textstart = Utf8Total(E.name)
+           \* re-encoding gives the same header and text; the amount of NUL padding (>= 0, to a multiple of 4) is the writer's choice
+           /\ E.re_res = "ok" /\ Len(E.re) >= 8 + Len(E.enc) /\ Len(E.re) % 4 = 0 /\ E.re[1] = Len(E.re)
+           /\ SubSeq(E.re, 2, 8 + Len(E.enc)) = SubSeq(E.frame, 2, 8 + Len(E.enc))
+           /\ AllNul(SubSeq(E.re, 9 + Len(E.enc), Len(E.re))) /\ Len(E.re) - (8 + Len(E.enc)) <= 4
+TNext == TMsoDec \/ TCpEnc \/ TCpDec \/ TE2E \/ TEsc \/ TUnesc \/ TStrip \/ TField \/ TFieldDec
 TSpec == l = 1 /\ [][TNext]_l
 Accepted ==
   LET reached == TLCGet("stats").diameter IN
